@@ -357,6 +357,11 @@ for _low, _var in (("awaiting_validation", "AwaitingValidation"), ("running", "R
       what=f"consts() while {_var}: InvalidState, nothing inserted, same state, endpoints untouched, pending callers unanswered, Continue", bounds=f"any sender index, state {_var}", functions=["state::PolicyState::consts (whole body)"], panic_prop="C14", stubs=[RS], est_gb=4)
 
 
+# C13 (partial): result delivery step of the MPC task
+for _n, _w in (("c13_mpc_result_is_delivered_once", "mpc() returned output bits, destination present: exactly one notification, the result; then Stop"), ("c13_mpc_error_is_delivered_once", "mpc() failed, destination present: exactly one notification, the error; then Stop"), ("c13_mpc_result_without_destination", "no destination: nothing sent; Stop"), ("c13_mpc_error_without_destination", "mpc() failed, no destination: nothing sent; Stop")):
+    H("state", _n, needs_segment=["sc_mpc_result"], what="MPC task behind polytune::mpc(): " + _w, bounds="one concrete mpc() outcome per harness (Ok([true]) / Err(EmptyMsg)); output decoding = stand-in", functions=["state::PolicyState::run (spawned MPC task behind the call of polytune::mpc)"], panic_prop="C13", stubs=[RS, "GarbleProgram::parse_output -> Ok(Literal::True)"], est_gb=2)
+
+
 def by_prefix(*prefixes, tier=None):
     return [h for n, h in ALL.items() if any(n.startswith(p) for p in prefixes) and (tier is None or h["tier"] == tier)]
 
@@ -550,8 +555,17 @@ PROPS["C15"] = dict(
     harnesses=by_prefix("c15_"),
     segments=["sc_cancel_executing"],
 )
+PROPS["C13"] = dict(
+    level="model_checking",
+    level_text="Bounded model checking of ONE step of C13: what the spawned MPC task does with the outcome of polytune::mpc() - cut from the async code on every run (awaits polled once): a party with an output destination is sent exactly one notification (the result on success, the error on failure), a party without one nothing, and the task then tells the actor to stop exactly once.",
+    level_note="Partial: the result-delivery step only. NOT covered: everything C13 quantifies over - arrival orders of schedule calls, delivery orders of the coordination RPCs, that the delivered value equals the program evaluated in the clear, that every schedule call returns Ok, the permit after the stop (see C17 / not-applicable reasons: interleavings of tokio actors are outside the technique). " + SEG,
+    explanation="Kani/CBMC on the statement run behind polytune::mpc() in the spawned task of run().",
+    outside="all interleavings; correctness of the delivered value; parties whose mpc() output is empty.",
+    assumptions=[FMT, TRACING, RS, POLL, "compiled.parse_output() replaced by a stand-in that returns Ok(Literal::True)"],
+    harnesses=by_prefix("c13_"),
+    segments=["sc_mpc_result"],
+)
 NOT_APPLICABLE = {
     "C12": "a property of interleavings of several parties' futures; Kani has no concurrency model and the join/scatter layer alone exhausts memory",
-    "C13": "a statement about all interleavings of several tokio actors (mpsc/oneshot/Notify/Semaphore, spawn, Garble compiler) ending in one correct result each; Kani has no concurrency model, tokio mpsc cannot even be created under it (futex), and the single-handler decision points that can be cut (see C14, C16) do not add up to this liveness/result claim",
     "C19": "the file variant is tempfile + BufWriter/BufReader over one shared OS file offset with seek in Drop; Kani has no file-system model",
 }
